@@ -33,12 +33,14 @@ BRANCHES = {
     'take1': [['take', 1]],
     'scan': [['scan', 'add', '0']],
     'roll': [['roll', 2, 1, [['sum', True]]]],
+    'odd': [['filter', 'odd']],
     'none': [['map', 'none_if_odd']],          # emits None as a VALUE (zip/combine_latest must not take it for 'nothing yet')
 }
 QUICK_SET = ['id', 'flt', 'cnt', 'last', 'take1', 'none']
 MULTI = [('id', 'flt', 'cnt'), ('flt', 'last', 'scan'), ('take1', 'cnt', 'dup'), ('flt', 'flt', 'id'), ('last', 'cnt', 'take1'),
          ('roll', 'flt', 'last'), ('id', 'flt', 'cnt', 'last'), ('flt', 'take1', 'scan', 'cnt'), ('dup', 'flt', 'last', 'id'),
-         ('cnt', 'cnt', 'cnt'), ('flt', 'id', 'flt', 'id'), ('scan', 'roll', 'flt'), ('none', 'flt', 'id'), ('cnt', 'none', 'none')]
+         ('cnt', 'cnt', 'cnt'), ('flt', 'id', 'flt', 'id'), ('scan', 'roll', 'flt'), ('none', 'flt', 'id'), ('cnt', 'none', 'none'),
+         ('flt', 'odd', 'flt'), ('odd', 'flt', 'odd'), ('id', 'odd', 'flt', 'cnt'), ('flt', 'odd', 'odd', 'flt')]
 JOINS = ['merge', 'zip', 'combine_latest']
 
 
